@@ -254,3 +254,45 @@ Fixpoint eraseFn (f : fnF) : fn :=
   end.
 Definition erase (st : istateF) : istate :=
   mkI (map eraseS (liveF st)) (eraseFn (curF st)) (map eraseFn (savedF st)).
+
+(* ---- the redundancy condition of the faithful layer, decidable form (tested by the replay) ---- *)
+
+Definition segF (cl : option (list scopeF)) : list nat :=
+  match cl with Some l => map sf_id (until_funF l) | None => [] end.
+
+(* every captured stack of the parent chain, callExprEval functions included *)
+Fixpoint fullp (f : fnF) : list nat :=
+  match f with GMain _ => [] | GSub _ cl par => segF cl ++ fullp par end.
+(* the captured stacks of the closures only: what the core machine consults *)
+Fixpoint corep (f : fnF) : list nat :=
+  match f with
+  | GMain _ => []
+  | GSub true _ par => corep par
+  | GSub false cl par => segF cl ++ corep par
+  end.
+
+Fixpoint tmpl_of (l : list scopeF) : list nat :=
+  match l with [] => [] | s :: r => if sf_fun s then sf_tmpl s else tmpl_of r end.
+
+
+Definition inclb (a b : list nat) : bool := forallb (fun i => existsb (Nat.eqb i) b) a.
+
+Fixpoint coveredb (a : list nat) (f : fnF) : bool :=
+  match f with
+  | GMain _ => true
+  | GSub true cl par => inclb (segF cl) a && coveredb a par
+  | GSub false cl par => coveredb (a ++ segF cl) par
+  end.
+
+(* cov, as a boolean: the captured stacks of mainfunc / of the callExprEval functions / of the template of the
+   innermost live function scope only repeat scopes that the lookup consults before them *)
+Definition covb (st : istateF) : bool :=
+  let a := map sf_id (until_funF (liveF st)) in
+  (match curF st with
+   | GMain cl => inclb (map sf_id (until_funF cl)) a
+   | f => coveredb a f
+   end) && inclb (tmpl_of (liveF st)) (a ++ corep (curF st)).
+
+(* the premise of cov_call / cov_tail_call at a function entry: the template's captured stack lies inside
+   the chain of the closure being entered *)
+Definition call_premise_b (tmpl : list nat) (f : fnF) : bool := inclb tmpl (corep f).
